@@ -293,6 +293,7 @@ def _rand_c18(rng, tier, sc0):
         if i % 4 == 0:
             c = {"rot": False, "naming": "Num", "mode": c["mode"], "cap": c.get("cap", 64),
                  "flush_ms": c.get("flush_ms", 0)}
+        c["fw"] = i % 3 == 2          # default channel = file and a writer (log_to_file_and_writer)
         if "size" in c:
             c["size"] = rng.choice([20, 60, 500])
         steps = [{"op": "Start", "append": rng.random() < 0.3}]
